@@ -27,6 +27,7 @@ type PropFile struct {
 	Assumptions []string `json:"assumptions"`
 	NotDecided  []string `json:"not_decided,omitempty"`
 	Bounded     []string `json:"bounded,omitempty"` // names of bounded stand-ins (thorough)
+	NoDeps      bool     `json:"no_deps,omitempty"` // do not add the verified callees of the listed functions
 }
 
 type Finding struct {
@@ -83,26 +84,27 @@ func loadFindings() *FindingsFile {
 }
 
 type checkedObl struct {
-	Name    string           `json:"name"`
-	Kind    string           `json:"kind"`
-	Result  string           `json:"result"`
-	Solver  string           `json:"solver"`
-	Secs    float64          `json:"time_s"`
-	Clause  string           `json:"clause,omitempty"`
-	Pos     string           `json:"pos,omitempty"`
-	All     []solverAnswer   `json:"all_solvers,omitempty"`
-	res     *oblResult       `json:"-"`
-	fn      string           `json:"-"`
-	g       *gen             `json:"-"`
+	Name   string         `json:"name"`
+	Kind   string         `json:"kind"`
+	Result string         `json:"result"`
+	Solver string         `json:"solver"`
+	Secs   float64        `json:"time_s"`
+	Clause string         `json:"clause,omitempty"`
+	Pos    string         `json:"pos,omitempty"`
+	All    []solverAnswer `json:"all_solvers,omitempty"`
+	res    *oblResult     `json:"-"`
+	fn     string         `json:"-"`
+	g      *gen           `json:"-"`
 }
 
 type funcRun struct {
+	dep      bool // not named by the property: a callee whose verified contract was relied on
 	poisoned int
-	key  string
-	g    *gen
-	err  error
-	res  []oblResult
-	secs float64
+	key      string
+	g        *gen
+	err      error
+	res      []oblResult
+	secs     float64
 }
 
 func cmdCheck(args []string) int {
@@ -142,29 +144,30 @@ func cmdCheck(args []string) int {
 	if rep.Violations > 0 || rep.Broken {
 		return 1
 	}
-	fmt.Printf("PASS property=%s tier=%s obligations=%d discharged=%d functions=%d wall=%.1fs\n", id, tier, rep.Obligations, rep.Discharged, len(pf.Functions), rep.WallS)
+	fmt.Printf("PASS property=%s tier=%s obligations=%d discharged=%d functions=%d+%d wall=%.1fs\n", id, tier, rep.Obligations, rep.Discharged, len(pf.Functions), len(rep.DepFunctions), rep.WallS)
 	return 0
 }
 
 type report struct {
-	Tier        string
-	Seed        int
-	WallS       float64
-	LoadS       float64
-	Obligations int
-	Discharged  int
-	Violations  int
-	Broken      bool
-	Lines       []string
-	Checked     []checkedObl
-	Vacuity     map[string]string
-	Uses        map[string]bool
-	SolverSecs  float64
-	BySolver    map[string]int
-	Known       []string
-	EngineErrs  []string
-	Functions   []string
-	Extra       map[string]interface{}
+	Tier         string
+	Seed         int
+	WallS        float64
+	LoadS        float64
+	Obligations  int
+	Discharged   int
+	Violations   int
+	Broken       bool
+	Lines        []string
+	Checked      []checkedObl
+	Vacuity      map[string]string
+	Uses         map[string]bool
+	SolverSecs   float64
+	BySolver     map[string]int
+	Known        []string
+	EngineErrs   []string
+	Functions    []string
+	DepFunctions []string
+	Extra        map[string]interface{}
 }
 
 func runProperty(P *Program, pf *PropFile, findings *FindingsFile, timeout int, cross bool, tier string) *report {
@@ -180,56 +183,100 @@ func runProperty(P *Program, pf *PropFile, findings *FindingsFile, timeout int, 
 		}
 	}
 
-	runs := make([]*funcRun, len(pf.Functions))
-	var wg sync.WaitGroup
+	// The functions named by the property, then (wave by wave) every pike function whose verified
+	// contract one of them was checked against: verification is modular, so a change inside a callee
+	// shows up only as a failed obligation of that callee, which therefore belongs to the property too.
+	var runs []*funcRun
+	var mu sync.Mutex
+	done := map[string]bool{}
 	sem := make(chan struct{}, 4)
-	for i, fk := range pf.Functions {
-		wg.Add(1)
-		go func(i int, fk string) {
-			defer wg.Done()
-			sem <- struct{}{}
-			defer func() { <-sem }()
-			t0 := time.Now()
-			key := resolveKey(P, fk)
-			fr := &funcRun{key: key}
-			runs[i] = fr
-			g, err := P.genVCWith(key, known)
-			fr.g, fr.err = g, err
-			if err != nil || g == nil {
-				return
-			}
-			selected := func(o *obligation) bool {
-				return o.Kind == "smoke" || o.Kind == "canary" || o.Kind == "finding" || matchAny(pf.Obligations, o.Name)
-			}
-			// round 1: every obligation of the function (a failed assertion is assumed afterwards, so an
-			// unrelated failure could make this property's obligations pass vacuously)
-			all := solveAll(g, dir, timeout, false, func(o *obligation) bool { return selected(o) || (o.Kind != "smoke" && o.Kind != "canary" && o.Kind != "finding") }, 6)
-			failing := map[int]bool{}
-			for _, r := range all {
-				k := r.Obl.Kind
-				if k != "smoke" && k != "canary" && k != "finding" && r.Answer.Result != "unsat" {
-					failing[r.Obl.idx] = true
+	runWave := func(keys []string, dep bool) []*funcRun {
+		wave := make([]*funcRun, len(keys))
+		var wg sync.WaitGroup
+		for i, key := range keys {
+			wg.Add(1)
+			go func(i int, key string) {
+				defer wg.Done()
+				sem <- struct{}{}
+				defer func() { <-sem }()
+				t0 := time.Now()
+				fr := &funcRun{key: key, dep: dep}
+				wave[i] = fr
+				g, err := P.genVCWith(key, known)
+				fr.g, fr.err = g, err
+				if err != nil || g == nil {
+					return
 				}
-			}
-			if len(failing) == 0 {
-				if cross {
-					fr.res = solveAll(g, dir, timeout, true, selected, 5)
-				} else {
-					for _, r := range all {
-						if selected(r.Obl) {
-							fr.res = append(fr.res, r)
-						}
+				real := func(o *obligation) bool { return o.Kind != "smoke" && o.Kind != "canary" && o.Kind != "finding" }
+				selected := func(o *obligation) bool {
+					if dep {
+						return real(o)
+					}
+					return !real(o) || matchAny(pf.Obligations, o.Name)
+				}
+				// round 1: every obligation of the function (a failed assertion is assumed afterwards, so an
+				// unrelated failure could make this property's obligations pass vacuously)
+				all := solveAll(g, dir, timeout, false, func(o *obligation) bool { return selected(o) || real(o) }, 6)
+				failing := map[int]bool{}
+				for _, r := range all {
+					if real(r.Obl) && r.Answer.Result != "unsat" {
+						failing[r.Obl.idx] = true
 					}
 				}
-			} else {
-				// round 2: this property's obligations, with the failed ones asserted but not assumed
-				fr.poisoned = len(failing)
-				fr.res = solveAllNA(g, dir, timeout, cross, selected, 5, failing)
-			}
-			fr.secs = time.Since(t0).Seconds()
-		}(i, fk)
+				if len(failing) == 0 {
+					if cross {
+						fr.res = solveAll(g, dir, timeout, true, selected, 5)
+					} else {
+						for _, r := range all {
+							if selected(r.Obl) {
+								fr.res = append(fr.res, r)
+							}
+						}
+					}
+				} else {
+					// round 2: this property's obligations, with the failed ones asserted but not assumed
+					fr.poisoned = len(failing)
+					fr.res = solveAllNA(g, dir, timeout, cross, selected, 5, failing)
+				}
+				fr.secs = time.Since(t0).Seconds()
+			}(i, key)
+		}
+		wg.Wait()
+		return wave
 	}
-	wg.Wait()
+	var first []string
+	for _, fk := range pf.Functions {
+		k := resolveKey(P, fk)
+		first = append(first, k)
+		done[k] = true
+	}
+	wave := runWave(first, false)
+	for len(wave) > 0 {
+		runs = append(runs, wave...)
+		var next []string
+		mu.Lock()
+		for _, fr := range wave {
+			if fr.g == nil {
+				continue
+			}
+			for u := range fr.g.used {
+				if !strings.HasPrefix(u, "verified:") {
+					continue
+				}
+				k := strings.TrimPrefix(u, "verified:")
+				if !done[k] && P.funcs[k] != nil {
+					done[k] = true
+					next = append(next, k)
+				}
+			}
+		}
+		mu.Unlock()
+		sort.Strings(next)
+		if pf.NoDeps {
+			next = nil
+		}
+		wave = runWave(next, true)
+	}
 
 	generated := map[string]bool{}
 	smokeReach := map[string]int{}
@@ -257,6 +304,9 @@ func runProperty(P *Program, pf *PropFile, findings *FindingsFile, timeout int, 
 
 	for _, fr := range runs {
 		rep.Functions = append(rep.Functions, fr.key)
+		if fr.dep {
+			rep.DepFunctions = append(rep.DepFunctions, fr.key)
+		}
 		if fr.err != nil {
 			rep.EngineErrs = append(rep.EngineErrs, fr.err.Error())
 			violation(shortKey(fr.key)+"/contract-binding", "function under contract cannot be analysed: "+fr.err.Error(), map[string]interface{}{"error": fr.err.Error()}, false)
@@ -517,18 +567,19 @@ func writeEvidence(pf *PropFile, rep *report) {
 		"trusted_base":             trusted,
 		"samples":                  samples,
 		"functions_under_contract": rep.Functions,
-		"callee_contracts_verified_elsewhere": verified,
-		"callees_inlined":          inlined,
-		"obligation_results":       rep.Checked,
-		"discharged_by_solver":     rep.BySolver,
-		"solver_time_s":            rep.SolverSecs,
-		"load_time_s":              rep.LoadS,
-		"vacuity":                  rep.Vacuity,
-		"known_findings_reported":  rep.Known,
-		"engine_errors":            rep.EngineErrs,
-		"explanation":              pf.Explanation,
-		"not_decided":              pf.NotDecided,
-		"exhaustive":               false,
+		"of_which_callees_added_by_dependency_closure": rep.DepFunctions,
+		"callee_contracts_verified_elsewhere":          verified,
+		"callees_inlined":                              inlined,
+		"obligation_results":                           rep.Checked,
+		"discharged_by_solver":                         rep.BySolver,
+		"solver_time_s":                                rep.SolverSecs,
+		"load_time_s":                                  rep.LoadS,
+		"vacuity":                                      rep.Vacuity,
+		"known_findings_reported":                      rep.Known,
+		"engine_errors":                                rep.EngineErrs,
+		"explanation":                                  pf.Explanation,
+		"not_decided":                                  pf.NotDecided,
+		"exhaustive":                                   false,
 	}
 	for k, v := range rep.Extra {
 		cov[k] = v
@@ -603,6 +654,9 @@ var pikePreRe = regexp.MustCompile(`/pre:(cache|server|location|compress|upstrea
 // libraryPre: a precondition obligation of a library callee. Such obligations are checked when
 // generated but never pinned: replacing one library helper by another is not a property change.
 func libraryPre(name string) bool {
+	if strings.Contains(name, "/inv:") || strings.Contains(name, "/rangeinv:") || strings.Contains(name, "/loopframe:") {
+		return true // loop invariants are proof devices: if the loop goes and the contract still proves, nothing is lost
+	}
 	return strings.Contains(name, "/pre:") && !pikePreRe.MatchString(name)
 }
 
